@@ -21,7 +21,7 @@ DocsExtra == { <<tA, tB, Et(na), tA, tB>>, <<tA, tB, Et(na), tA, tB, tB>>, <<tA,
                <<tBx, tBx, Et(nb), tBx, Et(nb), tBx>>, <<tA, tB, tA, Et(nb), tAc, tB>>, <<tA, tBr, tB, tBr, tB>>, <<tA, tSvgB, tSvgAsc, tAc, Et(nb), tB>>,
                <<tA, tA, tAc, Et(na), Et(na), tAc>>, <<Et(na), tB, Et(na), tB, Et(nb), Et(nb), tB>> }
 DocsQuick == SeqsUpTo(TagsQuick, 3) \cup {Append(Append(d, St(nb, cls, FALSE, "html")), St(na, cls, FALSE, "html")) : d \in SeqsUpTo(TagsQuick, 2)} \cup DocsExtra
-DocsThorough == SeqsUpTo(Tags, 4) \cup DocsExtra
+DocsThorough == SeqsUpTo(Tags, 3) \cup SeqsUpTo(TagsQuick, 4) \cup DocsExtra
 
 \* compounds
 Ty(n) == [t |-> "type", n |-> n]
